@@ -98,7 +98,7 @@ pub fn gen_flags(rng: &mut Rng) -> i32 {
         return f;
     }
     f |= libc::O_NONBLOCK;
-    for (bit, pm) in [(libc::O_NOFOLLOW, 200u64), (libc::O_CLOEXEC, 300), (libc::O_CREAT, 50), (libc::O_EXCL, 30), (libc::O_TMPFILE, 30), (libc::O_NOCTTY, 100), (libc::O_DIRECTORY, 50)] {
+    for (bit, pm) in [(libc::O_NOFOLLOW, 200u64), (libc::O_CLOEXEC, 300), (libc::O_CREAT, 50), (libc::O_EXCL, 30), (libc::O_TMPFILE, 30), (0o20000000, 25), (libc::O_NOCTTY, 100), (libc::O_DIRECTORY, 50)] {
         if rng.chance(pm, 1000) {
             f |= bit;
         }
